@@ -397,6 +397,9 @@ func (w *world) judge(sp *spec, c *Cell, rid int64, m *meta, before, after snaps
 	var effects []string
 	var fresh []string // ids / secrets of objects created by this command (blanked in the summary)
 	for _, ch := range changes {
+		if ch.Kind == "index" && ch.Op == "changed" && ch.Before.State == "-" {
+			ch.Op = "created" // the name was free before
+		}
 		switch ch.Op {
 		case "created":
 			o := ch.After
@@ -437,6 +440,20 @@ func (w *world) judge(sp *spec, c *Cell, rid int64, m *meta, before, after snaps
 			case "clientmaps", "clientdomains":
 				continue // judged below
 			case "secret":
+				continue
+			}
+			if o.Kind == "code" && authed && strings.Contains(reqText, jstr(o.ID)) && ch.After != nil && !ch.Before.hasState("activated=true") {
+				// the code is a bearer credential: the authenticated holder activates it; the activation must name the holder
+				if !strings.Contains(ch.After.State, fmt.Sprintf("activated=true by=%d ", rid)) {
+					res.f = &fail{fmt.Sprintf("C11/%s/identity=%s/code-activation-recorded-for-another-client", sp.Name, idClass(c.Identity, false)),
+						fmt.Sprintf("requester %s(id %d): %s -> %s", c.Identity, rid, o.State, ch.After.State)}
+					return res
+				}
+				allowedFor[rid] = true
+				for _, p := range o.Parties {
+					allowedFor[p] = true
+				}
+				effects = append(effects, ch.Op+" "+ch.Key+" => "+ch.After.State)
 				continue
 			}
 			if !isParty(o, rid) {
@@ -551,6 +568,10 @@ func (w *world) judge(sp *spec, c *Cell, rid int64, m *meta, before, after snaps
 	sb.WriteString(" replies:")
 	for _, p := range out.replies {
 		if p.CommandPacket != nil {
+			if p.PacketType.IsJsonCommand() {
+				fmt.Fprintf(&sb, " [forwarded cmd=%d %s]", p.CommandPacket.CommandType, w.normDelivered(p.CommandPacket.CommandBody))
+				continue
+			}
 			fmt.Fprintf(&sb, " [type=%d cmd=%d %s]", p.PacketType&0x3F, p.CommandPacket.CommandType, w.normJSON(p.CommandPacket.CommandBody, m.genSub))
 		}
 	}
